@@ -56,6 +56,8 @@ def impl_parents(p):
         ("key32", Prv(key=k32, **kw)),
         ("key33", Prv(key=b"\x00" + k32, **kw)),
         ("parsed", Prv.parse(ref_parent(p).xprv(vprv), testnet=p["testnet"])),
+        # an application's own node class (the library propagates the class to the children)
+        ("subclass", type("AppNode", (Prv,), {})(key=k32, **kw)),
     ]
 
 
@@ -129,6 +131,23 @@ def check_step(case, ctx):
             except R.Invalid:
                 continue
             compare_node("C01/bulk-straddling", "generate_children((2^31-2, 2^31+2))[%d]" % j, kid, rk, p["testnet"])
+    # single children requested in another order first, then a bulk request over the same indexes on the same node
+    if case.get("mixed", i % 4 == 1):
+        for s0 in sorted({0, i % 3}):
+            node = impl_parents(p)[0][1]
+            for j in [1000 + t for t in range(s0)] + [s0, s0 + 9, s0 + 25, s0 + 3]:
+                call(node.ckd, j)
+            st_, kids = call(node.generate_children, (s0, s0 + 4))
+            if st_ == "exc" or len(kids) != 4:
+                raise Violation("C01/step/bulk-after-singles", "generate_children((%d, %d)) after single ckd calls gave %r" % (s0, s0 + 4, kids))
+            for j, kid in enumerate(kids):
+                try:
+                    rk = R.ckd_priv(rp, s0 + j)
+                except R.Invalid:
+                    continue
+                compare_node("C01/bulk-after-singles", "generate_children((%d, %d))[%d] after ckd(%d), ckd(%d), ckd(%d), ckd(%d) on the same node"
+                             % (s0, s0 + 4, j, s0, s0 + 9, s0 + 25, s0 + 3), kid, rk, p["testnet"])
+        ctx.count("bulk-after-single-children")
     # same scalar with another chain code, same chain code with another scalar, in the same process
     Prv = _impl()
     # public nodes whose 32 key bytes after the prefix EQUAL this parent's secret bytes (the secret read as an x coordinate,
